@@ -3,6 +3,7 @@ package props
 import (
 	"bytes"
 	"fmt"
+	"io"
 	"math/rand"
 	"runtime"
 	"strconv"
@@ -295,6 +296,22 @@ func c19Run(c *mon.Ctx, idx int) {
 		}
 		c.Count("long_literal_dumps")
 	}
+	if idx%40 == 9 {
+		// trees deeper than any fixed stack / buffer of a renderer: flat chains of
+		// 63..300 operands, `not (` nesting, quantifier nesting
+		n := []int{63, 64, 65, 66, 127, 128, 129, 130, 255, 256, 257, 300}[(idx/40)%12]
+		switch (idx / 40) % 4 {
+		case 0:
+			txt = "a == 1" + strings.Repeat(" and b != 2", n-1)
+		case 1:
+			txt = "a == 1" + strings.Repeat(" or b in c", n-1) + " or (" + txt + ")"
+		case 2:
+			txt = strings.Repeat("not (x == 1 and ", n/8+1) + "y == 2" + strings.Repeat(")", n/8+1)
+		default:
+			txt = strings.Repeat("any l as v { ", n/6+1) + "v == 1" + strings.Repeat(" }", n/6+1)
+		}
+		c.Count("deep_tree_dumps")
+	}
 	obs := observeParse(txt, safeBudget)
 	if obs.Budgeted || obs.Err != nil || obs.Panic != "" {
 		c.Count("unparsed") // C16's subject
@@ -329,7 +346,9 @@ func c19Run(c *mon.Ctx, idx int) {
 			var b1, b2 bytes.Buffer
 			out := mon.Try(func() {
 				real.ExpressionDump(&b1, indent, level)
-				real.ExpressionDump(&b2, indent, level)
+				// the second time through a writer that has nothing but Write
+				// (no WriteString, no ReadFrom ...), like a hash or a network connection
+				real.ExpressionDump(struct{ io.Writer }{&b2}, indent, level)
 			})
 			d := map[string]any{"expression": clip(txt, 300), "indent": fmt.Sprintf("%q", indent), "level": level}
 			if out.Panic {
@@ -338,7 +357,7 @@ func c19Run(c *mon.Ctx, idx int) {
 				return
 			}
 			if b1.String() != b2.String() {
-				c.Violation("C19 dump-not-deterministic", "the same tree rendered differently twice", d)
+				c.Violation("C19 dump-not-deterministic", "the same tree rendered differently twice (once into a bytes.Buffer, once into a writer that only has Write)", d)
 				return
 			}
 			want := refparse.Dump(view, indent, level)
@@ -521,7 +540,7 @@ func init() {
 		NumCases:    func(tier string) int { return tierN(tier, 12000, 500000) },
 		Run:         c19Run,
 		Required: func(tier string) []string {
-			l := []string{"dumps_compared", "concurrent_dump_rounds", "long_literal_dumps", "long_indent_units", "selector_strings", "node:pointer-selector", "node:Or", "node:And", "node:Not", "node:Quant", "node:Match", "node:bind:0", "node:bind:1", "node:bind:2", "node:bind:3"}
+			l := []string{"dumps_compared", "concurrent_dump_rounds", "long_literal_dumps", "long_indent_units", "deep_tree_dumps", "selector_strings", "node:pointer-selector", "node:Or", "node:And", "node:Not", "node:Quant", "node:Match", "node:bind:0", "node:bind:1", "node:bind:2", "node:bind:3"}
 			for _, o := range xgen.OpNames {
 				l = append(l, "node:op:"+o)
 			}
